@@ -29,7 +29,7 @@ ASSUMPTIONS = [
     "expected values: an int leaf given as '5' parses to 5; a reference parses to an instance of the target class; anything else in the generated inputs is an invalid leaf -> ParseError",
     "direct spelling is only possible for a class that is already defined at that point; the generator falls back to a string there",
 ]
-WRAPPERS = ["plain", "opt", "list", "dict", "union", "tuple"]
+WRAPPERS = ["plain", "opt", "list", "dict", "union", "tuple", "oplist", "opdict"]
 SPELLINGS = ["direct", "name", "inner", "whole"]
 _uid = itertools.count()
 
@@ -46,7 +46,8 @@ def gen_shape(rng):
         for j in range(rng.choice([1, 1, 2, 3])):
             w = rng.choice(WRAPPERS)
             refs.append({"name": "r%d" % j, "target": rng.randrange(n), "wrapper": w, "maxlen2": w == "list" and rng.random() < 0.4})
-        classes.append({"refs": refs, "leaf_ge0": rng.random() < 0.4, "amt": rng.random() < 0.35})
+        # peer: a @property field whose getter return annotation AND setter parameter annotation name a (late or early) helper class
+        classes.append({"refs": refs, "leaf_ge0": rng.random() < 0.4, "amt": rng.random() < 0.35, "peer": rng.random() < 0.2})
     return {"classes": classes, "fn": {"arg": rng.randrange(n), "ret": rng.randrange(n), "star": rng.choice([None, rng.randrange(n)])}}
 
 
@@ -61,12 +62,15 @@ def gen_variant(rng, shape):
             spell[(i, r["name"])] = rng.choice(SPELLINGS)
     use = list(range(n)) + ["fn"]
     rng.shuffle(use)
-    return {"order": order, "style": style, "spell": spell, "use": use, "amt_late": rng.random() < 0.7, "fn_first": rng.random() < 0.4}
+    return {"order": order, "style": style, "spell": spell, "use": use, "amt_late": rng.random() < 0.7, "fn_first": rng.random() < 0.4,
+            "peer_late": rng.random() < 0.7, "peer_spell": rng.choice(["name", "name", "direct"])}
 
 
 def ann_src(wrapper, target_expr_direct, target_name, spelling):
     """source text of the annotation for a reference"""
-    wrap = {"plain": "{}", "opt": "Optional[{}]", "list": "List[{}]", "dict": "Dict[str, {}]", "union": "Union[int, {}]", "tuple": "Tuple[{}, int]"}[wrapper]
+    wrap = {"plain": "{}", "opt": "Optional[{}]", "list": "List[{}]", "dict": "Dict[str, {}]", "union": "Union[int, {}]", "tuple": "Tuple[{}, int]",
+            # operator-spelled unions nested inside a generic
+            "oplist": "List[utypes.NegativeInt | {}]", "opdict": "Dict[str, utypes.NegativeInt | {}]"}[wrapper]
     if spelling == "direct":
         return wrap.format(target_expr_direct)
     if spelling == "name" or (spelling == "inner" and wrapper == "plain"):
@@ -81,7 +85,7 @@ def source(shape, variant, uid):
     lines = []
     if variant["style"] == "future":
         lines.append("from __future__ import annotations")
-    lines += ["import typing", "from typing import Optional, List, Dict, Union, Tuple", "import utype", "from utype import Schema, Field, parse", ""]
+    lines += ["import typing", "from typing import Optional, List, Dict, Union, Tuple", "import utype", "from utype import Schema, Field, parse", "from utype import types as utypes", ""]
     ind = "    " if variant["style"] == "local" else ""
     if variant["style"] == "local":
         lines.append("def make():")
@@ -93,6 +97,12 @@ def source(shape, variant, uid):
     any_amt = any(c["amt"] for c in shape["classes"])
     if any_amt and (not variant["amt_late"] or variant["style"] == "local"):
         lines += amt_src
+    peer = "Peer%d" % uid
+    peer_src = [f"{ind}class {peer}(Schema):", f"{ind}    m: int", ""]
+    any_peer = any(c.get("peer") for c in shape["classes"])
+    peer_early = not variant.get("peer_late") or variant["style"] == "local"
+    if any_peer and peer_early:
+        lines += peer_src
     for i in variant["order"]:
         c = shape["classes"][i]
         lines.append(f"{ind}class {names[i]}(Schema):")
@@ -116,7 +126,8 @@ def source(shape, variant, uid):
             if t not in defined and t != i:
                 late = True
             default = {"plain": "None", "opt": "None", "list": "Field(default_factory=list" + (", max_length=2)" if r.get("maxlen2") else ")"),
-                       "dict": "Field(default_factory=dict)", "union": "None", "tuple": "None"}[r["wrapper"]]
+                       "dict": "Field(default_factory=dict)", "union": "None", "tuple": "None", "oplist": "Field(default_factory=list)",
+                       "opdict": "Field(default_factory=dict)"}[r["wrapper"]]
             lines.append(f"{ind}    {r['name']}: {ann_src(r['wrapper'], names[t], names[t], sp)} = {default}")
         if c["amt"]:
             # a constrained reference to a plain class: by name (late or early), or direct in a local scope
@@ -125,15 +136,26 @@ def source(shape, variant, uid):
             if variant["amt_late"] and variant["style"] != "local":
                 late = True
             nondirect = True
+        if c.get("peer"):
+            pa = peer if (peer_early and variant.get("peer_spell") == "direct") or variant["style"] == "local" else repr(peer)
+            lines += [f"{ind}    @property", f"{ind}    def peer(self) -> {pa}:", f"{ind}        return self._peer",
+                      f"{ind}    @peer.setter", f"{ind}    def peer(self, value: {pa}):", f"{ind}        self._peer = value"]
+            if not peer_early:
+                late = True
+            if pa != peer:
+                nondirect = True
         lines.append("")
         defined.add(i)
     if any_amt and variant["amt_late"] and variant["style"] != "local":
         lines += amt_src
+    if any_peer and not peer_early:
+        lines += peer_src
     f = shape["fn"]
     q = "" if variant["style"] == "local" else "'"
     star = f", *rest: {q}{names[f['star']]}{q}" if f["star"] is not None else ""
     fn_lines = [f"{ind}@parse", f"{ind}def fn(x: {q}{names[f['arg']]}{q}{star}) -> {q}{names[f['ret']]}{q}:",
-                f"{ind}    return dict(v='7')" if f["ret"] != f["arg"] else f"{ind}    return x", ""]
+                (f"{ind}    return dict(v='7', peer=dict(m=1))" if shape["classes"][f["ret"]].get("peer") else f"{ind}    return dict(v='7')")
+                if f["ret"] != f["arg"] else f"{ind}    return x", ""]
     if variant.get("fn_first") and variant["style"] != "local":
         # the function is declared BEFORE the classes it names: parameters, *args and return type are late references
         at = next(k for k, l in enumerate(lines) if l.startswith("class ") or l.startswith(f"class {amt}"))
@@ -168,6 +190,14 @@ def gen_data(rng, shape, i, depth, bad_at=None, path=()):
             exp["amt"] = int(a)
         else:
             exp["amt"] = 5
+    if c.get("peer"):
+        # a property with a setter and no default is a required field
+        m = rng.choice(["3", 4, "0", "x"] if rng.random() < 0.15 else ["3", 4, "0"])
+        data["peer"] = {"m": m}
+        if m == "x":
+            bad = True
+        else:
+            exp["peer"] = {"m": int(m)}
     for r in c["refs"]:
         if depth <= 0 or rng.random() < 0.35:
             continue
@@ -182,6 +212,10 @@ def gen_data(rng, shape, i, depth, bad_at=None, path=()):
             data[r["name"]], e = ([child] * 3, [cexp] * 3) if k3 else ([child], [cexp])
             if k3:
                 bad = True
+        elif w == "oplist":
+            data[r["name"]], e = [child, -2], [cexp, -2]
+        elif w == "opdict":
+            data[r["name"]], e = {"k": child, "n": "-3"}, {"k": cexp, "n": -3}
         elif w == "dict":
             data[r["name"]], e = {"k": child}, {"k": cexp}
         else:
@@ -191,7 +225,7 @@ def gen_data(rng, shape, i, depth, bad_at=None, path=()):
         return data, ("bad",)
     for r in c["refs"]:
         if r["name"] not in exp:
-            exp[r["name"]] = {"plain": None, "opt": None, "list": [], "dict": {}, "union": None, "tuple": None}[r["wrapper"]]
+            exp[r["name"]] = {"plain": None, "opt": None, "list": [], "dict": {}, "union": None, "tuple": None, "oplist": [], "opdict": {}}[r["wrapper"]]
     return data, exp
 
 
@@ -324,7 +358,7 @@ def run_case(case, ctx):
             for u in variant["use"]:
                 if u == "fn":
                     continue
-                run(lambda: ns[names[u]](v="1"))
+                run(lambda: ns[names[u]](**arg_for0(shape, u)))
             for rep in (1, 2):
                 for ci, data, exp in script:
                     out = run(lambda: norm(dict(ns[names[ci]].__from__(_copy(data)))))
@@ -343,7 +377,9 @@ def run_case(case, ctx):
             if not problems:
                 # the function: argument class, *rest class, return class
                 arg_data, arg_exp = {"v": "5"}, None
-                o2 = run(lambda: norm(dict(ns["fn"]({"v": "5"}, *([{"v": "6"}] if f["star"] is not None else [])))))
+                def arg_for(ci, v):
+                    return dict({"v": v}, **({"peer": {"m": "2"}} if shape["classes"][ci].get("peer") else {}))
+                o2 = run(lambda: norm(dict(ns["fn"](arg_for(f["arg"], "5"), *([arg_for(f["star"], "6")] if f["star"] is not None else [])))))
                 ctx.count("parses")
                 exp_v = 7 if f["ret"] != f["arg"] else 5
                 if not o2.ok or o2.value.get("v") != exp_v:
@@ -370,6 +406,10 @@ def run_case(case, ctx):
                         pbase.__parsers__.pop(v, None)
             except Exception:
                 pass
+
+
+def arg_for0(shape, ci):
+    return dict({"v": "1"}, **({"peer": {"m": "2"}} if shape["classes"][ci].get("peer") else {}))
 
 
 def _copy(d):
